@@ -1202,6 +1202,14 @@ func main() {
 		for _, k := range names {
 			known = known || k == n
 		}
+		if n == "verif_hooks.go" {
+			// the harness hook: only compiled with -tags verif, and must say so on its first line
+			b, _ := os.ReadFile(filepath.Join(dir, n))
+			if !strings.HasPrefix(string(b), "//go:build verif\n") {
+				die("%s is not guarded by the verif build tag", n)
+			}
+			continue
+		}
 		if !known && !strings.HasSuffix(n, "_test.go") && (strings.HasSuffix(n, ".go") || strings.HasSuffix(n, ".s")) {
 			die("unexpected source file %s in the field package", n)
 		}
